@@ -681,8 +681,11 @@ def upSafe (it : GoItem) : Bool :=
     | _ => true
   | .batch _ _ => true
 
-/-- ranges the Go types guarantee: `uint64` ids / estimates / powers / nonces, `uint64` fees,
-    `sdkmath.Int` amounts below 2^256, slice lengths below 2^256 -/
+/-- an `int64` value (deadlines are `int64` in the protobuf messages) -/
+def int64Ok (d : Int) : Bool := decide (-(I63 : Int) ≤ d) && decide (d < (I63 : Int))
+
+/-- ranges the Go types guarantee: `uint64` ids / estimates / powers / nonces, `uint64` fees, `int64`
+    deadlines, `sdkmath.Int` amounts below 2^256, slice lengths below 2^256 -/
 def goItemWf (it : GoItem) : Bool :=
   match it with
   | .msg m _ =>
@@ -691,15 +694,26 @@ def goItemWf (it : GoItem) : Bool :=
     | .updateValset vs =>
       vs.powers.all (fun p => decide (p < U64)) && decide (vs.valsetId < U64) &&
       decide (vs.validators.length < W256) && decide (vs.powers.length < W256)
-    | .submitLogicCall _ p fe _ _ => feesWf fe && decide (p.length < W256)
+    | .submitLogicCall _ p fe _ d => feesWf fe && decide (p.length < W256) && int64Ok d
     | .uploadSmartContract _ => true
-    | .uploadUserSmartContract _ bc fe _ _ => feesWf fe && decide (bc.length < W256)
-    | .compassHandover cs _ =>
-      decide (cs.length < W256) && cs.all (fun c => decide (c.2.length < W256))
+    | .uploadUserSmartContract _ bc fe _ d => feesWf fe && decide (bc.length < W256) && int64Ok d
+    | .compassHandover cs d =>
+      decide (cs.length < W256) && cs.all (fun c => decide (c.2.length < W256)) && int64Ok d
   | .batch _ b =>
     decide (b.nonce < U64) && decide (b.timeout < U64) && decide (b.estimate < U64) &&
     b.amounts.all (fun a => decide (a < (W256 : Int))) &&
     decide (b.dests.length < W256) && decide (b.amounts.length < W256)
+
+/-- the Go-level deadline (`int64`) of an item, for the kinds that have one -/
+def goDeadline (it : GoItem) : Option Int :=
+  match it with
+  | .msg m _ =>
+    match m.action with
+    | .submitLogicCall _ _ _ _ d => some d
+    | .uploadUserSmartContract _ _ _ _ d => some d
+    | .compassHandover _ d => some d
+    | _ => none
+  | .batch _ _ => none
 
 /-! ### when is an item offered to relayers -/
 
@@ -712,17 +726,24 @@ def hasGasEstimate (requireEst : Bool) (est : Nat) : Bool :=
     the batch is skipped -/
 def batchOffered (est : Nat) : Bool := !decide (est < 1)
 
-/-- An item whose delivered call carries a gas estimate is offered to relayers only once the
-    estimate is elected: `UpdateValset` (x/evm/keeper/keeper.go) and `CompassHandover`
-    (x/evm/keeper/smart_contract_deployment.go) are enqueued with `RequireGasEstimation: true`. -/
-def itemOffered (it : GoItem) : Bool :=
+/-- The stored gas estimate of the item is an ELECTED one (non-zero) — for the kinds whose delivered call
+    carries an estimate (`UpdateValset`, `CompassHandover`, skyway batch); vacuous for the others.  This is a
+    statement about the item's `estimate` field only.  WHEN it holds is not decided here:
+    * a turnstone message is offered to relayers (`GetMessagesForRelaying`) only if `hasGasEstimate req est`,
+      where `req` is the `RequireGasEstimation` flag the message was ENQUEUED with — an input of that filter,
+      modelled in `Model/Queue.lean` (`Item.reqEst`, `pass2`); `Props/C14.lean` proves that every message the
+      producers of /repo enqueue has the flag set (`offered_requires_elected_no_put`) and `Props/C05.lean`
+      (`offered_message_is_elected`) transfers it to this predicate;
+    * a skyway batch is listed by the `OutgoingTxBatches` query only if `batchOffered est`.
+    Validators SIGN an item regardless (no such gate in `GetMessagesForSigning` / `ConfirmBatch`). -/
+def itemElected (it : GoItem) : Bool :=
   match it with
   | .msg m _ =>
     match m.action with
-    | .updateValset _ => hasGasEstimate true m.estimate
-    | .compassHandover _ _ => hasGasEstimate true m.estimate
+    | .updateValset _ => decide (m.estimate ≠ 0)
+    | .compassHandover _ _ => decide (m.estimate ≠ 0)
     | _ => true
-  | .batch _ b => batchOffered b.estimate
+  | .batch _ b => decide (b.estimate ≠ 0)
 
 /-! ## Ids: the consensus queue id counter
 
@@ -791,6 +812,55 @@ def freshOf (op : IdOp) (r : IdRes) : List Nat :=
 def freshIds (s : IdSt) : List IdOp → List Nat
   | [] => []
   | op :: ops => freshOf op (idStep s op).2 ++ freshIds (idStep s op).1 ops
+
+/-! ## Ids and messages together: what `Queue.Put` stores
+
+`Queue.Put` (x/consensus/keeper/consensus/consensus.go) builds the stored `QueuedSignedMessage` with
+`Id: mid` where `mid` is the value `IncrementNextID` just returned (fresh put), or re-reads the stored
+wrapper and only swaps `m.Msg` (put with `MsgIDToReplace`: id, gas estimate and signatures stay).
+`GetBytesToSign` then calls `Keccak256WithSignedMessage(q)`, which reads `q.GetId()` and `q.GasEstimate`
+— so the `id` / `estimate` fields of the `GoMsg` that is hashed are the wrapper's.  `jqStep` is `idStep`
+plus exactly that bookkeeping; the id part of its state IS the `IdSt` of `idStep`. -/
+
+structure JqSt where
+  ids : IdSt := {}
+  /-- (queue, stored message); `msg.id` / `msg.estimate` are the wrapper's `Id` / `GasEstimate` -/
+  msgs : List (Nat × GoMsg) := []
+deriving Repr, Inhabited
+
+inductive JqOp where
+  | put (q : Nat) (m : GoMsg) (replace : Nat)   -- the caller's `m.id` / `m.estimate` are ignored
+  | remove (q : Nat) (id : Nat)
+deriving Repr, Inhabited
+
+def JqOp.toId : JqOp → IdOp
+  | .put q _ r => .put q r
+  | .remove q id => .remove q id
+
+def jqStep (s : JqSt) (op : JqOp) : JqSt × IdRes :=
+  match op with
+  | .put q m r =>
+    match (idStep s.ids (.put q r)).2 with
+    | .ok id =>
+      if r ≠ 0 then
+        ({ ids := (idStep s.ids (.put q r)).1,
+           msgs := s.msgs.map fun p =>
+             if p.1 == q && p.2.id == id then (q, { m with id := id, estimate := p.2.estimate }) else p }, .ok id)
+      else
+        ({ ids := (idStep s.ids (.put q r)).1, msgs := (q, { m with id := id, estimate := 0 }) :: s.msgs }, .ok id)
+    | res => ({ s with ids := (idStep s.ids (.put q r)).1 }, res)
+  | .remove q id =>
+    match (idStep s.ids (.remove q id)).2 with
+    | .ok _ =>
+      ({ ids := (idStep s.ids (.remove q id)).1, msgs := s.msgs.filter fun p => !(p.1 == q && p.2.id == id) }, .ok id)
+    | res => ({ s with ids := (idStep s.ids (.remove q id)).1 }, res)
+
+def jqRun (s : JqSt) : List JqOp → JqSt
+  | [] => s
+  | op :: ops => jqRun (jqStep s op).1 ops
+
+def jqGet (s : JqSt) (q id : Nat) : Option GoMsg :=
+  (s.msgs.find? fun p => p.1 == q && p.2.id == id).map (·.2)
 
 /-! ## executable hash -/
 
